@@ -21,11 +21,26 @@ ops (1-D) and the tokens each one prints:
   C / A      continue on a copy-constructed / assigned copy (the original is kept)   -> nothing
   R          return to the object the last copy was taken from                       -> nothing
 ops (2-D): I x y / O x y -> v vf vb;  gm gM Q P U C A R as above.
+Sessions (several objects alive in one process, holding possibly different tables; slots 0..7, slot 0 starts as an object of table 0
+and is the current one; every query goes to the current object and to fresh objects of the table that object should hold by now):
+  s1 <T> {<ctor> <N> x.. <N> y..}*T <nops> op ..        s2 <T> {<ctor> <Nx> xs <Ny> ys f..}*T <nops> op ..
+  the member calls above (not C A R), and
+  S k      the object in slot k becomes the current one
+  N k t    slot k: the old object is destroyed, a new object of table t is constructed
+  V k t    *slot k = Interpolation(table t ..)   (assignment from a temporary)
+  W k t    { Interpolation tmp(table t ..); *slot k = tmp; }   (copy assignment from a third object that dies at once)
+  K a b    slot b = new copy-constructed copy of slot a (an old object in b is destroyed first)
+  E a b    *slot b = *slot a   (copy assignment in place; also a == b)
+  Z a b    std::swap(*slot a, *slot b)
+  X k      the object in slot k is destroyed
 A call that ends the process makes the whole line EXIT.
 The model prints `_` only for the 2-D Global_* values; `_` is not compared.
 Generator classes: plain tables (integer / logarithmic / random increments, 3..2000 points) with histories of far jumps, short correlated steps
 both ways, knots, the ladder of distances beside knots (1..1000 representable steps, 1e-16..1e-6 relative), domain ends and margins,
-verbatim repetitions of earlier arguments, copies; every constructor overload with unit arguments; tables on EXTREME scales (abscissae
+verbatim repetitions of earlier arguments, copies; sessions in which a copy's source (or the copy) is afterwards queried elsewhere,
+assigned another table (of the same, a smaller or a larger size: with and without reuse of the storage), swapped, or destroyed before
+the other one is asked again, with arguments aimed at the segments that the cached indices of ALL live objects denote in the OTHER
+tables (where a look-up that consults state or storage of another object goes wrong); every constructor overload with unit arguments; tables on EXTREME scales (abscissae
 scaled by 1e-322..1e295 through the raw table or the unit argument, neighbouring doubles at a large offset, subnormal abscissae): there
 1-D histories use every kind of query when the spline coefficients are numbers and the index / prefactor / copy / Global_* calls otherwise
 (`index-only`), 2-D histories evaluate the bilinear value throughout."""
@@ -44,7 +59,10 @@ LEVEL_TEXT = ("Theorems (Coq, unbounded, on an abstract number type with only th
               "Integrate / Local_* / Global_* / Set_Prefactor / Multiply / copy operations of any length and every further operation, the output "
               "(located indices and value, as the same term) equals that of a fresh object carrying the prefactor determined by the Set_Prefactor / "
               "Multiply calls alone; Interpolate and Derivative(1..3) return exactly that prefactor times the prefactor-free segment value; the same "
-              "for Interpolation_2D with its two helper objects. Constructors (every overload: vectors / rows, grid / data table, with the unit arguments x_dim, y_dim, "
+              "for Interpolation_2D with its two helper objects. Sessions of several objects alive in one process and holding different tables (member calls, "
+              "constructions, copy constructions / assignments between slots, swaps, destructions, in any order and number): after any session the object in any "
+              "slot answers any call as a fresh object of the table and with the prefactor that the bookkeeping of constructions / copies / swaps / prefactor calls "
+              "alone assigns to that slot — what happens to the source of a copy after the copy was taken, or to the copy, is invisible on the other (1-D and 2-D). Constructors (every overload: vectors / rows, grid / data table, with the unit arguments x_dim, y_dim, "
               "f_dim): a unit argument > 0 multiplies its table and nothing else, any other value (the default -1 included) leaves it alone, and the object starts "
               "with prefactor 1, jLast 0, correlated_calls false whatever the unit arguments are, so that on an object built with units the prefactor after a "
               "history is still the one of the Set_Prefactor / Multiply calls alone and every query answers as on a fresh object of the scaled table. Not theorems: that the C++ code is the model (differential correspondence on every run: "
@@ -58,10 +76,12 @@ LEVEL_TEXT = ("Theorems (Coq, unbounded, on an abstract number type with only th
               "hold for NaN arguments as well (both objects exit).")
 LEVEL_NOTE = ("Coq 8.16.1 kernel; all C09 theorems are axiom-free (closed under the global context); premises carried by the theorems: OrdLaws (strict total "
               "order on non-NaN values; nisnan models std::isnan), table strictly increasing (checked by the constructor), 2 <= N <= 2^30 (no int overflow in the index arithmetic); C++ int/unsigned "
-              "conversions are modelled as reduction mod 2^32; default copy constructor / assignment are modelled as duplication of (jLast, correlated_calls, prefactor)")
+              "conversions are modelled as reduction mod 2^32; default copy constructor / assignment are modelled as duplication of (jLast, correlated_calls, prefactor) "
+              "and, in sessions, of the table the object holds (no storage is shared between objects in the model; that the C++ objects share none is checked by the "
+              "session cases of the correspondence and S4 stages, in the thorough tier also under AddressSanitizer)")
 TOL = (1e-12, 1e-300)
 MODEL_DEPS = ["C01_Model.v", "C08_Model.v", "C01_Model.vo", "C08_Model.vo"]
-TRUSTED = ["the compiler-generated copy constructor and copy assignment of Interpolation / Interpolation_2D are modelled as member-wise duplication",
+TRUSTED = ["the compiler-generated copy constructor, copy / move assignment, std::swap and destructor of Interpolation / Interpolation_2D are modelled as member-wise operations on objects that share no storage",
            "the 1-D spline evaluation functions are parameters of the C09 model; 1-D values are checked on the implementation only (bit-identity with a fresh object), not against the model"]
 ASSUMPTIONS = ["OrdLaws: the comparison of non-NaN doubles is a strict total order; NaN arguments are handled separately (nisnan: Locate exits)",
                "signed overflow in the index arithmetic is excluded by N <= 2^30 (tables of the property have 3..2000 points)"]
@@ -119,29 +139,46 @@ def scaled(dim, l):
     return [v * dim for v in l] if dim > 0.0 else list(l)
 
 
+LIFE = {"S": 1, "X": 1, "N": 2, "V": 2, "W": 2, "K": 2, "E": 2, "Z": 2}     # session operations: integer arguments, no output
+for _o, _n in LIFE.items():
+    ARITY[_o] = _n; NOUT[_o] = 0; ARITY2[_o] = _n; NOUT2[_o] = 0
+
+
+class Parsed:
+    """kind h1 / t1 / h2 / s1 / s2; tables = [(xs, ys, tab)] after the unit scaling (tab = None for 1-D); ops = [(op, args)]"""
+    def __init__(self, kind, tables, ops):
+        self.kind = kind; self.tables = tables; self.ops = ops
+        self.two = kind in ("h2", "s2"); self.session = kind in ("s1", "s2")
+
+
 def parse_case(line):
     t = line.split(); kind = t[0]; p = 1
     def fl():
         nonlocal p
         n = int(t[p]); v = [tokf(a) for a in t[p + 1:p + 1 + n]]; p += 1 + n; return v
-    two = kind == "h2"
-    ck = t[p]; p += 1; argc = int(ck[1]); dims = [-1.0] * (3 if two else 2)
-    for k in range(argc): dims[k] = tokf(t[p]); p += 1
-    xs = fl(); ys = fl(); tab = None
-    xs = scaled(dims[0], xs)
-    if two:
-        tab = [tokf(a) for a in t[p:p + len(xs) * len(ys)]]; p += len(xs) * len(ys)
-        ys = scaled(dims[1], ys); tab = scaled(dims[2], tab)
-    else: ys = scaled(dims[1], ys)
+    two = kind in ("h2", "s2")
+    ntab = 1
+    if kind in ("s1", "s2"): ntab = int(t[p]); p += 1
+    tables = []
+    for _ in range(ntab):
+        ck = t[p]; p += 1; argc = int(ck[1]); dims = [-1.0] * (3 if two else 2)
+        for k in range(argc): dims[k] = tokf(t[p]); p += 1
+        xs = fl(); ys = fl(); tab = None
+        xs = scaled(dims[0], xs)
+        if two:
+            tab = [tokf(a) for a in t[p:p + len(xs) * len(ys)]]; p += len(xs) * len(ys)
+            ys = scaled(dims[1], ys); tab = scaled(dims[2], tab)
+        else: ys = scaled(dims[1], ys)
+        tables.append((xs, ys, tab))
     nops = int(t[p]); p += 1
-    ar = ARITY if kind in ("h1", "t1") else ARITY2
+    ar = ARITY2 if two else ARITY
     ops = []
     for _ in range(nops):
         o = t[p]; p += 1; a = []
         for k in range(ar[o]):
-            a.append(int(t[p]) if (o == "D" and k == 1) else tokf(t[p])); p += 1
+            a.append(int(t[p]) if ((o == "D" and k == 1) or o in LIFE) else tokf(t[p])); p += 1
         ops.append((o, a))
-    return kind, xs, ys, tab, ops
+    return Parsed(kind, tables, ops)
 
 
 class Cache:
@@ -162,27 +199,57 @@ class Cache:
         return j
 
 
-def simulate(kind, xs, ys, ops):
-    """returns (kinds, exits): the search kind of every Locate call of the history, and whether some call exits"""
-    kinds = []
-    if kind == "h2":
-        cx, cy = Cache(xs), Cache(ys); st = []
-        for o, a in ops:
+class Obj:
+    """one object of the process: the number of the table it holds, the prefactor its calls should have left, its cache(s)"""
+    def __init__(self, t, tables, two):
+        self.t = t; self.pf = 1.0
+        self.caches = [Cache(tables[t][0])] + ([Cache(tables[t][1])] if two else [])
+    def copy(self):
+        c = Obj.__new__(Obj); c.t = self.t; c.pf = self.pf; c.caches = [k.copy() for k in self.caches]; return c
+
+
+class Machine:
+    """the objects of a case as the property describes them: copies are independent objects that start with the members of their source"""
+    def __init__(self, two, tables):
+        self.two = two; self.tables = tables; self.slots = {0: Obj(0, tables, two)}; self.cur = 0; self.stack = []
+    def obj(self): return self.slots[self.cur]
+    def table(self): return self.tables[self.obj().t]
+    def life(self, o, a):
+        """applies C A R and the session operations; False = `o` is a member call"""
+        sl = self.slots
+        if o in ("C", "A"): self.stack.append(self.obj().copy())
+        elif o == "R":
+            if self.stack: sl[self.cur] = self.stack.pop()
+        elif o == "S": self.cur = a[0]
+        elif o == "X": del sl[a[0]]
+        elif o in ("N", "V", "W"): sl[a[0]] = Obj(a[1], self.tables, self.two)
+        elif o in ("K", "E"):
+            if a[0] != a[1]: sl[a[1]] = sl[a[0]].copy()
+        elif o == "Z": sl[a[0]], sl[a[1]] = sl[a[1]], sl[a[0]]
+        else: return False
+        return True
+    def query(self, o, a, kinds):
+        """the cache effects of a member call; False = the call ends the process"""
+        ob = self.obj()
+        if o == "P": ob.pf = a[0]; return True
+        if o == "U": ob.pf *= a[0]; return True
+        if self.two:
             if o in ("I", "O"):
-                if cx.locate(a[0], kinds) is None or cy.locate(a[1], kinds) is None: return kinds, True
-            elif o in ("C", "A"): st.append((cx.copy(), cy.copy()))
-            elif o == "R" and st: cx, cy = st.pop()
-        return kinds, False
-    c = Cache(xs); st = []
-    for o, a in ops:
-        if o in ("C", "A"): st.append(c.copy()); continue
-        if o == "R":
-            if st: c = st.pop()
-            continue
+                return ob.caches[0].locate(a[0], kinds) is not None and ob.caches[1].locate(a[1], kinds) is not None
+            return True
         ls = locates_of(o, a)
-        if ls is None: return kinds, True
+        if ls is None: return False
         for x in ls:
-            if c.locate(x, kinds) is None: return kinds, True
+            if ob.caches[0].locate(x, kinds) is None: return False
+        return True
+
+
+def simulate(P):
+    """returns (kinds, exits): the search kind of every Locate call of the history, and whether some call exits"""
+    kinds = []; m = Machine(P.two, P.tables)
+    for o, a in P.ops:
+        if m.life(o, a): continue
+        if not m.query(o, a, kinds): return kinds, True
     return kinds, False
 
 
@@ -347,6 +414,7 @@ def gen_history(rng, xs, nops, with_exit, extra_pu=0.0, index_only=False):
 
 def op_text(o, a):
     if o == "D": return f"D {hx(a[0])} {a[1]}"
+    if o in LIFE: return " ".join([o] + [str(k) for k in a])
     return " ".join([o] + [hx(v) for v in a])
 
 
@@ -546,6 +614,176 @@ def case_2d(rng, nx, ny, nops, with_exit=False, units=None, extra_pu=0.04):
     return Case(line, tg)
 
 
+# ---- sessions: several objects / tables in one process
+def related_abscissae(rng, xs0):
+    """abscissae of a further table whose domain overlaps that of xs0 (an argument can then be legitimate for both, while the segment
+    numbers differ): the same grid, another grid on the same range, a coarsened / refined grid, a shifted / stretched one, an unrelated one"""
+    n0 = len(xs0); lo, hi = xs0[0], xs0[-1]; r = rng.random()
+    if r < 0.12: xs = list(xs0)
+    elif r < 0.45:
+        n1 = rng.choice([n0, n0, max(3, n0 - 1), n0 + 1, rng.randint(3, 2 * n0 + 2)])
+        e0 = lo + (hi - lo) * rng.choice([0.0, 0.0, rng.uniform(-0.3, 0.3)]); e1 = hi + (hi - lo) * rng.choice([0.0, 0.0, rng.uniform(-0.3, 0.3)])
+        xs = sorted(set([e0, e1] + [e0 + (e1 - e0) * rng.random() for _ in range(n1 - 2)]))
+    elif r < 0.58: xs = [xs0[0]] + [v for v in xs0[1:-1] if rng.random() < 0.5] + [xs0[-1]]
+    elif r < 0.72:
+        xs = []
+        for u, v in zip(xs0, xs0[1:]):
+            xs.append(u)
+            if rng.random() < 0.4: xs.append(u + (v - u) * rng.uniform(0.2, 0.8))
+        xs.append(xs0[-1]); xs = sorted(set(xs))
+    elif r < 0.90:
+        sc = rng.choice([1.0, 0.5, 2.0, rng.uniform(0.5, 2.0)]); d = (hi - lo) * rng.choice([0.0, rng.uniform(-0.5, 0.5), 1.0 / max(2, n0 - 1)])
+        xs = sorted(set(lo + d + sc * (v - lo) for v in xs0))
+    else: xs = make_table(rng, rng.choice([3, 5, n0, 2 * n0]))[0]
+    while len(xs) < 3: xs.append(xs[-1] + (hi - lo) * rng.uniform(0.05, 0.5))
+    return xs
+
+
+def rand_values(rng, n):
+    a = rng.uniform(0.1, 3); ph = rng.uniform(0, 6)
+    return [math.sin(a * k + ph) * (1 + 0.1 * k) + rng.choice([0.0, 0.0, rng.uniform(-1, 1)]) for k in range(n)]
+
+
+def aimed_argument(rng, m, axis=0):
+    """an argument for the current object aimed at cross-talk between objects: inside the segment that the cached index of some live
+    object (the current one included) denotes in ANOTHER table, or beside one of that segment's ends; None if no such point is legitimate"""
+    xs = m.table()[axis]; cand = []
+    for ob in m.slots.values():
+        j = ob.caches[axis].j
+        for t, tb in enumerate(m.tables):
+            ys = tb[axis]
+            if ys is xs or j > len(ys) - 2: continue
+            lo, hi = max(ys[j], xs[0]), min(ys[j + 1], xs[-1])
+            if lo < hi and ref_index(xs, 0.5 * (lo + hi)) != j: cand.append((lo, hi))
+    if not cand: return None
+    lo, hi = rng.choice(cand); r = rng.random()
+    if r < 0.6: x = lo + (hi - lo) * rng.uniform(0.02, 0.98)
+    elif r < 0.8: x = 0.5 * (lo + hi)
+    else: x = math.nextafter(lo, math.inf) if rng.random() < 0.5 else math.nextafter(hi, -math.inf)
+    return x if zone(xs, x) == "in" else None
+
+
+def random_life(rng, m, ntab, nslots=4):
+    """one valid session operation for the state m"""
+    live = sorted(m.slots); others = [k for k in live if k != m.cur]
+    for _ in range(20):
+        o = rng.choice(["S", "S", "K", "K", "E", "E", "N", "V", "W", "W", "Z", "X"])
+        if o == "S" and others: return (o, [rng.choice(others)])
+        if o == "X" and others: return (o, [rng.choice(others)])
+        if o == "Z" and others: return (o, [m.cur, rng.choice(others)] if rng.random() < 0.7 else [rng.choice(others), m.cur])
+        if o == "K":
+            a = rng.choice(live); b = rng.choice([k for k in range(nslots) if k != a]); return (o, [a, b])
+        if o == "E": return (o, [rng.choice(live), rng.randrange(nslots)])
+        if o == "N": return (o, [rng.randrange(nslots), rng.randrange(ntab)])
+        if o in ("V", "W"): return (o, [rng.choice(live + [rng.randrange(nslots)]), rng.randrange(ntab)])
+    return ("E", [m.cur, m.cur])
+
+
+def gen_session(rng, tables, nblocks, two, burst):
+    """tables: as in Parsed.  burst(m, n, aimed) -> list of member calls on the current object of m (it does not apply them).
+    Blocks: an aliasing scenario (a copy is taken; then ONE of the two is changed behind the other's back — queried elsewhere, rescaled,
+    assigned another table in place, rebuilt, swapped, destroyed — and the other one is asked, first at an aimed argument), or a few random
+    operations followed by calls."""
+    ntab = len(tables); m = Machine(two, tables); ops = []; nslots = 4
+    def emit(o, a):
+        ops.append((o, a))
+        if not m.life(o, a): m.query(o, a, [])
+    def calls(n, aimed=False):
+        for o, a in burst(m, n, aimed): emit(o, a)
+    calls(rng.randint(1, 6))
+    for _ in range(nblocks):
+        if rng.random() < 0.6:
+            src = m.cur; dst = rng.choice([k for k in range(nslots) if k != src])
+            calls(rng.randint(0, 4))
+            emit(rng.choice(["K", "E"]), [src, dst])
+            a, b = (src, dst) if rng.random() < 0.6 else (dst, src)        # a is changed, b is asked afterwards
+            if m.cur != a: emit("S", [a])
+            for _k in range(rng.randint(1, 2)):
+                r = rng.random(); t2 = rng.randrange(ntab)
+                others = [k for k in m.slots if k not in (a, b)]
+                if r < 0.30: emit("W", [a, t2])
+                elif r < 0.42: emit("V", [a, t2])
+                elif r < 0.52: emit("N", [a, t2])
+                elif r < 0.64:
+                    if not others: emit("N", [[k for k in range(nslots) if k not in (a, b)][0], t2]); others = [k for k in m.slots if k not in (a, b)]
+                    emit("E", [rng.choice(others), a])
+                elif r < 0.72 and others: emit("Z", [a, rng.choice(others)])
+                elif r < 0.84: calls(rng.randint(1, 5)); emit(*prefactor_op(rng))
+                else:
+                    emit("S", [b]); emit("X", [a])
+                    if rng.random() < 0.7: emit("N", [rng.choice([a, a, [k for k in range(nslots) if k not in m.slots][0]]), t2])   # a new object may take over the freed storage
+                    break
+            if m.cur != b: emit("S", [b])
+            calls(rng.randint(1, 6), aimed=True)
+        else:
+            for _k in range(rng.randint(1, 3)): emit(*random_life(rng, m, ntab, nslots))
+            calls(rng.randint(1, 8), aimed=rng.random() < 0.5)
+    return ops
+
+
+def _member_calls(rng, xs, n, index_only=False):
+    return [(o, a) for o, a in gen_history(rng, xs, n + 2, False, extra_pu=0.05, index_only=index_only) if o not in ("C", "A", "R")][:n]
+
+
+def case_session_1d(rng, n, nblocks, ntab=None):
+    xs0, ys0 = make_table(rng, n)
+    tables = [(xs0, ys0, None)]
+    for _ in range((ntab or rng.choice([2, 2, 3])) - 1):
+        for _try in range(6):
+            xs = related_abscissae(rng, xs0); ys = rand_values(rng, len(xs))
+            if grid_ok(xs) and values_ok(xs, ys): break
+        else: xs, ys = list(xs0), rand_values(rng, len(xs0))
+        tables.append((xs, ys, None))
+    def burst(m, k, aimed):
+        xs = m.table()[0]; out = []
+        if aimed:
+            x = aimed_argument(rng, m)
+            if x is not None:
+                r = rng.random()
+                if r < 0.5: out.append(("L", [x]))
+                elif r < 0.75: out.append((rng.choice(["I", "O", "d"]), [x]))
+                elif r < 0.9: out.append(("D", [x, rng.choice([0, 1, 2, 3])]))
+                else: out.append(("G", [x, point_in(rng, xs, ref_index(xs, x))]))
+        return out + _member_calls(rng, xs, max(0, k - len(out)))
+    ops = gen_session(rng, tables, nblocks, False, burst)
+    kinds = [rng.choice(["v", "v", "r"]) for _ in tables]
+    line = f"s1 {len(tables)} " + " ".join(f"{kd}0 {flist(xs)} {flist(ys)}" for kd, (xs, ys, _t) in zip(kinds, tables)) + f" {len(ops)} " + " ".join(op_text(o, a) for o, a in ops)
+    return Case(line, ("1d", "session"))
+
+
+def case_session_2d(rng, nx, ny, nblocks):
+    xs0, _ = make_table(rng, nx); ys0, _ = make_table(rng, ny)
+    def values(xs, ys): return [math.sin(0.3 * i + rng.uniform(0, 1)) * math.cos(0.2 * j) + 0.01 * i * j + rng.uniform(-0.1, 0.1) for i in range(len(xs)) for j in range(len(ys))]
+    tables = [(xs0, ys0, values(xs0, ys0))]
+    for _ in range(rng.choice([1, 1, 2])):
+        for _try in range(6):
+            xs = related_abscissae(rng, xs0) if rng.random() < 0.8 else list(xs0)
+            ys = related_abscissae(rng, ys0) if rng.random() < 0.8 else list(ys0)
+            if grid_ok(xs) and grid_ok(ys) and len(xs) * len(ys) <= 900: break
+        else: xs, ys = list(xs0), list(ys0)
+        tables.append((xs, ys, values(xs, ys)))
+    def burst(m, k, aimed):
+        xs, ys, _t = m.table(); out = []
+        ax = [a[0] for o, a in _member_calls(rng, xs, k + 2, index_only=True) if o == "L"]; ay = [a[0] for o, a in _member_calls(rng, ys, k + 2, index_only=True) if o == "L"]
+        if aimed:
+            x = aimed_argument(rng, m, 0); y = aimed_argument(rng, m, 1)
+            if x is not None or y is not None:
+                x = x if x is not None and rng.random() < 0.8 else point_in(rng, xs, rng.randrange(len(xs) - 1))
+                y = y if y is not None and rng.random() < 0.8 else point_in(rng, ys, rng.randrange(len(ys) - 1))
+                out.append((rng.choice(["I", "O"]), [x, y]))
+        for x, y in zip(ax, ay):
+            r = rng.random()
+            if r < 0.05: out.append(prefactor_op(rng))
+            elif r < 0.08: out.append((rng.choice(["gm", "gM", "Q"]), []))
+            out.append((rng.choice(["I", "I", "I", "O"]), [x, y]))
+        return out[:max(k, 1)]
+    ops = gen_session(rng, tables, nblocks, True, burst)
+    kinds = [rng.choice(["g", "g", "t"]) for _ in tables]
+    line = f"s2 {len(tables)} " + " ".join(f"{kd}0 {flist(xs)} {flist(ys)} " + " ".join(hx(v) for v in tab) for kd, (xs, ys, tab) in zip(kinds, tables)) \
+           + f" {len(ops)} " + " ".join(op_text(o, a) for o, a in ops)
+    return Case(line, ("2d", "session"))
+
+
 def generate(rng, tier):
     big = tier != "quick"
     cs = []
@@ -586,6 +824,11 @@ def generate(rng, tier):
         hy_ = [a[0] for o, a in gen_history(rng, ys2, 40, False, index_only=True) if o == "L"]
         ops = [("I", [a, b]) for a, b in zip(hx_, hy_)]
         cs.append(Case(f"h2 g0 {flist(xs)} {flist(ys2)} " + " ".join(hx(v) for v in tab) + f" {len(ops)} " + " ".join(op_text(o, a) for o, a in ops), ("2d", "extreme-scale", "scale-ladder")))
+    # sessions: several objects holding several tables; copies whose source (or which themselves) change afterwards
+    for _ in range(600 if big else 70):
+        cs.append(case_session_1d(rng, rng.choice(sizes_small + [5, 8, 100]), rng.choice([4, 8, 12, 20])))
+    for _ in range(250 if big else 30):
+        cs.append(case_session_2d(rng, rng.choice([3, 4, 7, 12, 20]), rng.choice([3, 5, 9, 16]), rng.choice([4, 8, 12])))
     for _ in range(1200 if big else 230):
         n = rng.choice(sizes_small + [100, 257, rng.randint(3, 300)])
         nops = rng.choice([10, 15, 25, 40, 80, rng.randint(10, 200)])
@@ -629,29 +872,31 @@ def _sim(c):
     k = c.line
     if k not in _sim_cache:
         if len(_sim_cache) > 4: _sim_cache.clear()
-        kind, xs, ys, tab, ops = parse_case(c.line)
-        _sim_cache[k] = (kind, xs, ys, tab, ops) + simulate(kind, xs, ys, ops)
+        P = parse_case(c.line)
+        _sim_cache[k] = (P,) + simulate(P)
     return _sim_cache[k]
 
 
 def tolerance(c):
     """relative 1e-12 (g++ evaluates pow(x,2.0) as x*x etc.: a few ulp) plus, for sums with cancellation (Integrate: differences of
     antiderivative values |pf|*|y|*|x|; bilinear form), the a-priori absolute slack 64*eps*(magnitude of the summed terms), DESIGN 5.3"""
-    kind, xs, ys, tab, ops = _sim(c)[:5]
-    pf = 1.0; pfmax = 1.0
-    for o, a in ops:
-        if o == "P": pf = a[0]
-        elif o == "U": pf *= a[0]
-        pfmax = max(pfmax, abs(pf))
+    P = _sim(c)[0]
+    pfmax = 1.0; m = Machine(P.two, P.tables)
+    for o, a in P.ops:
+        if m.life(o, a): continue
+        if o in ("P", "U"):
+            m.query(o, a, []); pfmax = max(pfmax, abs(m.obj().pf))
     eps = 2.0 ** -53
-    if kind == "h2": mag = pfmax * max(abs(v) for v in tab)
-    else: mag = pfmax * max(abs(v) for v in ys) * 4 * (max(abs(xs[0]), abs(xs[-1])) + (xs[-1] - xs[0]))
+    mag = 0.0
+    for xs, ys, tab in P.tables:
+        if P.two: mag = max(mag, pfmax * max(abs(v) for v in tab))
+        else: mag = max(mag, pfmax * max(abs(v) for v in ys) * 4 * (max(abs(xs[0]), abs(xs[-1])) + (xs[-1] - xs[0])))
     return (1e-12, 64 * eps * mag)
 
 
 def nontrivial(c, io):
     if io.split()[:1] and io.split()[0] in ("CRASH", "SANITIZER", "TIMEOUT", "HARNESSERR"): return False
-    kinds = _sim(c)[5]
+    kinds = _sim(c)[1]
     return "B" in kinds and "U" in kinds and "D" in kinds
 
 
@@ -670,31 +915,42 @@ def predicates(c, io):
     out = []
     head = io.split()[0] if io.split() else ""
     if head in ("CRASH", "SANITIZER", "TIMEOUT", "HARNESSERR", "EXIT0", "EXIT_NODIAG"): return out   # reported generically
-    kind, xs, ys, tab, ops, kinds, exits = _sim(c)
+    P, kinds, exits = _sim(c)
+    kind = P.kind; ops = P.ops
     if head == "EXIT":
         if not exits: out.append((f"{kind}:exit", "the history ends the process although every argument lies in the domain or its tolerated margin and every range is ordered"))
         return out
     if exits:
         return [(f"{kind}:no-exit", "a call with an argument outside the tolerated margin (or a reversed range) returned instead of ending the process")]
-    t = io.split(); two = kind == "h2"; nout = NOUT2 if two else NOUT
+    t = io.split(); two = P.two; nout = NOUT2 if two else NOUT
     need = sum(nout[o] for o, a in ops)
     if len(t) != need: return [(f"{kind}:shape", f"{len(t)} output tokens, expected {need}")]
     sfx = "2" if two else ""
-    fvals = tab if two else ys                       # the function values after the unit scaling
-    fmin, fmax = min(fvals), max(fvals)
+    m = Machine(two, P.tables); p = 0
+    stats = []
+    for xs, ys, tab in P.tables:
+        fvals = tab if two else ys                       # the function values after the unit scaling
+        stats.append((min(fvals), max(fvals), max(abs(w) for w in fvals)))
+    for n_op, (o, a) in enumerate(ops):
+        if m.life(o, a): continue
+        xs, ys, tab = m.table()
+        where = f"op #{n_op} {op_text(o, a)}" + (f" on the object in slot {m.cur} (table {m.obj().t})" if P.session else "")
+        m.query(o, a, [])
+        v = t[p:p + nout[o]]; p += nout[o]
+        _check_call(out, kind, two, sfx, o, a, v, where, xs, ys, tab, m.obj().pf, stats[m.obj().t])
+        if len(out) > 4: break
+    return out
+
+
+def _check_call(out, kind, two, sfx, o, a, v, where, xs, ys, tab, pf, stat):
+    """one member call: xs, ys, tab = the (unit-scaled) table its object should hold, pf = the prefactor its calls should have left
+    (after this call), stat = (minimum, maximum, largest magnitude) of the function values of that table"""
+    fmin, fmax, ymax = stat
     ny = len(ys)
-    ymax = max(abs(v) for v in fvals)
     # |antiderivative value on a segment| <= ymax * (|x| + 5.5 * 2 * h) (Steffen: |a h^3| <= 6|dy|, |b h^2| <= 9|dy|, |c h| <= 2|dy|), 1 % beyond the ends included
     stem = 0.0 if two else ymax * (max(abs(xs[0]), abs(xs[-1])) + 13.0 * (xs[-1] - xs[0]))
-    p = 0; pf = 1.0; st = []
-    for n_op, (o, a) in enumerate(ops):
-        v = t[p:p + nout[o]]; p += nout[o]
-        where = f"op #{n_op} {op_text(o, a)}"
-        if o in ("C", "A"): st.append(pf)
-        elif o == "R":
-            if st: pf = st.pop()
-        elif o in ("P", "U"):
-            pf = a[0] if o == "P" else pf * a[0]
+    for _once in (0,):
+        if o in ("P", "U"):
             if not same_bits(tokf(v[0]), pf): out.append((f"{kind}:harness-prefactor", f"{where}: harness tracks {v[0]}, expected {pf!r}"))
         elif o == "Q":
             d = [tokf(w) for w in v]; exp = [xs[0], xs[-1]] + ([ys[0], ys[-1]] if two else [])
@@ -745,8 +1001,6 @@ def predicates(c, io):
                         out.append((f"{o}{sfx}:prefactor", f"{where}: {x!r} is not the extremum {exp!r} of prefactor {pf!r} times the values of a new object (minimum {bmin!r}, maximum {bmax!r})"))
                     if o in ("gm", "gM") and (bmin != fmin or bmax != fmax):
                         out.append((f"{o}{sfx}:table", f"{where}: a new object has global extrema {bmin!r}, {bmax!r}; the (unit-scaled) table has {fmin!r}, {fmax!r}"))
-        if len(out) > 4: break
-    return out
 
 
 # ---------------------------------------------------------------- extra stage: the model's own trace of search kinds
@@ -761,8 +1015,7 @@ def extra(ctx, rng):
     code = {"X": "0", "B": "1", "U": "2", "D": "3", "E": "4"}
     hist = {}; bad = []; calls = 0
     for c, mo in zip(cs, outs):
-        kind, xs, ys, tab, ops = parse_case(c.line)
-        kinds, ex = simulate(kind, xs, ys, ops)
+        kinds, ex = simulate(parse_case(c.line))
         exp = " ".join(code[k] for k in kinds)
         for k in kinds: hist[k] = hist.get(k, 0) + 1
         calls += len(kinds)
